@@ -171,8 +171,9 @@ Qed.
 Definition main_step (s : state) (e : aevent) : res :=
   match e with
   | AStart n =>
+      (* a leader told to time out now steps down first *)
       if (n =? 0) then Fail 10 else
-      if role_eqb (role (st s n)) Leader then Fail 11 else Ok (do_start n s)
+      if role_eqb (role (st s n)) Leader then Ok (do_start n (do_follow n s)) else Ok (do_start n s)
   | AVoteReq v t c true =>
       if (c =? 0) then Fail 20 else
       match find (fun x => (fst (fst x) =? t) && (snd (fst x) =? c)) (started s) with
@@ -327,9 +328,12 @@ Lemma main_step_sound s e s' : main_step s e = Ok s' -> steps V s s'.
 Proof.
   destruct e as [n|v t c g|c v g|l m|f m|l f k|n c|f t l K c|n]; simpl.
   - destruct (N.eqb_spec n 0) as [|Hn]; [discriminate|].
-    destruct (role_eqb (role (st s n)) Leader) eqn:Hr; [discriminate|].
-    intro H; inversion H; subst. apply steps_one. apply SStart; [exact Hn|].
-    intro E. rewrite E in Hr. discriminate.
+    destruct (role_eqb (role (st s n)) Leader) eqn:Hr.
+    + intro H; inversion H; subst.
+      eapply steps_step; [apply steps_one; apply (SStepDown V s n)|].
+      apply SStart; [exact Hn|]. unfold do_follow. simpl. rewrite upd_eq. simpl. discriminate.
+    + intro H; inversion H; subst. apply steps_one. apply SStart; [exact Hn|].
+      intro E. rewrite E in Hr. discriminate.
   - destruct g; [|intro H; inversion H; apply steps_refl].
     destruct (N.eqb_spec c 0) as [|Hc]; [discriminate|].
     destruct (find _ (started s)) as [[[t' c'] L]|] eqn:Hf; [|discriminate].
